@@ -151,6 +151,8 @@ impl Heap {
     /// # Arguments
     /// `ast` - The structure to allocate recursively on the heap.
     pub fn put_cell(&mut self, ast: &cell::Cell) -> VCell {
+        #[cfg(marwood_verif)]
+        let _depth_guard = crate::verif_depth::Guard::enter(crate::verif_depth::PUT_CELL);
         let vcell = self.maybe_put_cell(ast);
         if vcell.is_ptr() {
             vcell
@@ -171,6 +173,8 @@ impl Heap {
     /// # Arguments
     /// `ast` - The structure to allocate recursively on the heap.
     pub fn maybe_put_cell(&mut self, ast: &cell::Cell) -> VCell {
+        #[cfg(marwood_verif)]
+        let _depth_guard = crate::verif_depth::Guard::enter(crate::verif_depth::PUT_CELL);
         match *ast {
             cell::Cell::Undefined => VCell::Undefined,
             cell::Cell::Void => VCell::Void,
@@ -264,6 +268,8 @@ impl Heap {
     /// # Arguments
     /// `vcell` - The vcell to map to a cell
     pub fn get_as_cell(&self, vcell: &VCell) -> Cell {
+        #[cfg(marwood_verif)]
+        let _depth_guard = crate::verif_depth::Guard::enter(crate::verif_depth::GET_AS_CELL);
         match vcell {
             VCell::Bool(val) => Cell::Bool(*val),
             VCell::Char(val) => Cell::Char(*val),
@@ -333,6 +339,8 @@ impl Heap {
     /// # Arguments
     /// `root` - The root vcell to mark
     pub fn mark(&mut self, root: usize) {
+        #[cfg(marwood_verif)]
+        let _depth_guard = crate::verif_depth::Guard::enter(crate::verif_depth::MARK);
         let mut ptr = root;
         loop {
             let vcell = match self.heap.get(ptr) {
@@ -405,6 +413,8 @@ impl Heap {
     }
 
     pub fn mark_vcell(&mut self, vcell: &VCell) {
+        #[cfg(marwood_verif)]
+        let _depth_guard = crate::verif_depth::Guard::enter(crate::verif_depth::MARK);
         match vcell {
             VCell::InstructionPointer(lambda, _) => {
                 self.mark(*lambda);
